@@ -69,6 +69,8 @@ def _fst_desc(rng):
 def _ig_desc(rng):
     from props.c17 import gen as g17
     c = g17(rng, "quick")
+    while "rules" not in c:          # a scaled shape of C17 (props/scaled.py): draw again
+        c = g17(rng, "quick")
     return {"rules": c["rules"][:6], "optim": rng.pick([0, 7, 7, 2])}
 
 
